@@ -109,12 +109,16 @@ def modifyRoot (f : Tab → Tab) : Chain → Res Chain
   | [st] => .ok [f st]
   | st :: p :: ps => do let r ← modifyRoot f (p :: ps); pure (st :: r)
 
-/-- `isBuiltinDisabled` (symbol_table.go:401-405); reading a nil map yields "absent" -/
+/-- `_, ok := root.disabledBuiltins[name]` on the root scope; reading a nil map yields "absent" -/
+def memDisabled (r : Tab) (name : Name) : Bool :=
+  match r.disabledBuiltins with
+  | none => false
+  | some d => decide (name ∈ d)
+
+/-- `isBuiltinDisabled` (symbol_table.go:401-405) -/
 def isBuiltinDisabled (ch : Chain) (name : Name) : Res Bool := do
   let r ← root ch
-  pure (match r.disabledBuiltins with
-        | none => false
-        | some d => decide (name ∈ d))
+  pure (memDisabled r name)
 
 /-- `shadowBuiltin` (symbol_table.go:407-411) -/
 def shadowBuiltin (B : Builtins) (st : Tab) (name : Name) : Tab :=
@@ -178,10 +182,7 @@ def resolve (B : Builtins) : Chain → Name → Res (Chain × Option Symbol)
             .ok (st :: ps', some symbol)
       | [] =>
         -- if !ok && st.parent == nil && !st.isBuiltinDisabled(name)   (st is its own root)
-        let disabled := match st.disabledBuiltins with
-          | none => false
-          | some d => decide (name ∈ d)
-        if !disabled then
+        if !memDisabled st name then
           -- if idx, exists := BuiltinsMap[name]; exists
           match mapGet B name with
           | some idx =>
@@ -405,21 +406,30 @@ def chainOf : Heap → Nat → List (Nat × Tab)
                       | some p => chainOf older p)
     else chainOf older id
 
-def setTab : Heap → Nat → Tab → Heap
+/-- replace the entry `id` -/
+def setEntry : Heap → Nat → Entry → Heap
   | [], _, _ => []
-  | e :: older, id, t =>
-    if older.length = id then { e with tab := t } :: older
-    else e :: setTab older id t
+  | e :: older, id, n =>
+    if older.length = id then n :: older
+    else e :: setEntry older id n
 
-def setParentNone : Heap → Nat → Heap
-  | [], _ => []
-  | e :: older, id =>
-    if older.length = id then { e with parent := none } :: older
-    else e :: setParentNone older id
+/-- write the scopes `ts` back to `id`, `id.parent`, … (the walk of `chainOf`) -/
+def writeChain : Heap → Nat → List Tab → Heap
+  | [], _, _ => []
+  | e :: older, id, ts =>
+    if older.length = id then
+      match ts with
+      | [] => e :: older
+      | t :: ts' =>
+        { e with tab := t } :: (match e.parent with
+                                | none => older
+                                | some p => writeChain older p ts')
+    else e :: writeChain older id ts
 
-def writeBack (H : Heap) : List Nat → List Tab → Heap
-  | id :: ids, t :: ts => writeBack (setTab H id t) ids ts
-  | _, _ => H
+def writeBack (H : Heap) (h : Handle) (ts : List Tab) : Heap :=
+  match h with
+  | none => H
+  | some id => writeChain H id ts
 
 def tabsOf (H : Heap) (h : Handle) : Chain :=
   match h with
@@ -479,7 +489,7 @@ def hasParentOf (H : Heap) (id : Nat) : Bool :=
 /-- run a chain-level method on the table `h` and write the modified scopes back -/
 def onChain {α} (H : Heap) (h : Handle) (f : Chain → Res (Chain × α)) (k : α → Out) : Heap × Out :=
   match f (tabsOf H h) with
-  | .ok (ch', a) => (writeBack H (idsOf H h) ch', k a)
+  | .ok (ch', a) => (writeBack H h ch', k a)
   | .err _ => (H, .panic "unexpected error")
   | .panic m => (H, .panic m)
 
@@ -544,9 +554,9 @@ def step (B : Builtins) (H : Heap) : Op → Heap × Out
       match tabsOf H ev with
       | [] => (H, .panic "invalid memory address or nil pointer dereference")
       | st :: _ =>
-        let H1 := setParentNone (setTab H id (resetTab st)) id
+        let H1 := setEntry H id { tab := resetTab st, parent := none }
         match evalResetTab (some st) (tabsOf H1 comp) scopes with
-        | .ok t => (setTab H1 id t, .handle (some id))
+        | .ok t => (setEntry H1 id { tab := t, parent := none }, .handle (some id))
         | .err _ => (H1, .panic "unexpected error")
         | .panic m => (H1, .panic m)
 
